@@ -243,7 +243,7 @@ def lab_run(task, spec, args):
     uid = f'{os.getpid()}-{STATE["uid"]}'
     n = STATE['invocations'][full] = STATE['invocations'].get(full, 0) + 1
     fault = STATE['faults'].get(full)
-    fault_kind = fault['kind'] if fault and fault['on'] == n else None
+    fault_kind = fault['kind'] if fault and fault['on'] <= n <= fault.get('until', fault['on']) else None
     rec = {'uid': uid, 'pid': os.getpid(), 'session': STATE['session'], 'chain': STATE['chain'], 'step': STATE['step'],
            'task': full, 'slug': task.slugname, 'cls': type(task).__name__, 'key': None, 'invocation': n, 'fault': fault_kind}
     try:
